@@ -62,6 +62,8 @@ def run(chk: Check, proj: Project) -> None:
     from . import C19
 
     C19.s5(chk, proj, w, rule="S10")
+    chk.borrow("S11", "scripts cached during a render are still there when the page's dependencies are collected: the library's own cache backend has an effective 'no limit' configuration (shared with C19-S7)",
+               lambda sub: C19.s7_own_backend(sub, proj))
 
 
 def check_inclusion(chk: Check, rule: str, key: str, loc: str, lang: Lang, alts: AbsStr, what: str, reader: str) -> bool:
